@@ -73,3 +73,9 @@ func (s *Session) VerifSealUnchecked(ptext []byte, counter uint32) []byte {
 	out := append([]byte{}, msg...)
 	return s.cipherOut.Encrypt(out, uint64(counter), msg, ptext)
 }
+
+// VerifGates evaluates the send/receive gates of a session that is in the given handshake state.
+func VerifGates(isInit bool, hsIndex uint8) (canSend, canReceive, ready bool) {
+	s := &Session{isInit: isInit, hsIndex: hsIndex}
+	return s.canSend(), s.canReceive(), s.IsReady()
+}
